@@ -829,6 +829,7 @@ func c17Run(c *fw.Ctx) {
 			c.Res.Note("scenario %s\n%s\n%v", name, s.Describe(), detail())
 		}
 	}
+	c17Nested(c)
 	for _, sc := range fills {
 		sc := sc
 		drive(c, sc.Name, sc.Bound, func(x *explore.Exec, owned bool) {
@@ -906,6 +907,7 @@ func init() {
 			"threads = 2-3 harness threads issuing Update/RefreshLoop/Get/Stop or membership questions over users {u1,u2} x group lists {[a],[a,b],[b,a],[b]} interleaved with directory edits, plus the refresh-loop / TTL-purge goroutines the code spawns and ticker/TTL firings as environment threads; " +
 			"choice points = next thread at every lock, sync-map, channel, select, spawn and in-directory-call point (preemption bound 2 quick / 3 thorough) and the directory's outcome (members / error / not-found) at every call; " +
 			"oracle = DESIGN.md A.5 (answers only from what the directory reported for the same user and group set; Get = latest successful fill, failed fill keeps, not-found drops; partly cached => direct answer; <=1 fill and <=1 refresh loop per group); " +
+			"google-admin/*: the provider built by NewGoogleProvider with a credentials file, its own GoogleAdminService over an in-memory Admin SDK transport; google-admin/nested-groups: a directory whose top group contains groups (two levels), the top group's member set refreshed once or twice with EVERY listing request of every refresh answered {ok, 503, 404} and all five users asked about after each refresh: an answer given without an error equals the directory's transitive membership; " +
 			"distinct_nontrivial = distinct observation signatures among executions with >=2 fills (fill/*), >=1 cache hit (local/*), or any (google/*)",
 		Assumptions: []string{
 			"sequentially consistent memory; unsynchronised accesses are looked for by the separate free-running -race pass",
